@@ -24,14 +24,14 @@ from .facts import op_local, op_const
 UNSIGNED = re.compile(r"^(u8|u16|u32|u64|u128|usize)$")
 INT = re.compile(r"^(u8|u16|u32|u64|u128|usize|i8|i16|i32|i64|i128|isize)$")
 WIDTH = {"u8": 8, "u16": 16, "u32": 32, "u64": 64, "usize": 64, "u128": 128, "i8": 8, "i16": 16, "i32": 32, "i64": 64, "isize": 64, "i128": 128}
-LEN_CALL = re.compile(r"core::slice::<impl \[T\]>::len$|\bVec::<T, A>::len$|\bstr::len$|\bString::len$|bytes::Bytes::len$|\bBytesMut::len$|VecDeque::<T, A>::len$|<\[T; N\]>::len$")
-EMPTY_CALL = re.compile(r"core::slice::<impl \[T\]>::is_empty$|\bVec::<T, A>::is_empty$|\bstr::is_empty$|\bString::is_empty$|bytes::Bytes::is_empty$")
+LEN_CALL = re.compile(r"core::slice::<impl \[T\]>::len$|\bVec::<T, A>::len$|core::str::<impl str>::len$|\bString::len$|bytes::Bytes::len$|\bBytesMut::len$|VecDeque::<T, A>::len$|<impl \[T; N\]>::len$")
+EMPTY_CALL = re.compile(r"core::slice::<impl \[T\]>::is_empty$|\bVec::<T, A>::is_empty$|core::str::<impl str>::is_empty$|\bString::is_empty$|bytes::Bytes::is_empty$")
 VIEW_CALL = re.compile(r"\bDeref>?::deref$|\bDerefMut>?::deref_mut$|\bVec::<T, A>::as_slice$|\bVec::<T, A>::as_mut_slice$|\bAsRef<.*>>?::as_ref$|\bBorrow<.*>>?::borrow$|"
-                       r"\bString::as_str$|\bString::as_bytes$|\bstr::as_bytes$|core::slice::<impl \[T\]>::as_ref$|\bCursor::<T>::get_ref$|\bCursor::<T>::into_inner$|<\[T; N\]>::as_slice$")
+                       r"\bString::as_str$|\bString::as_bytes$|core::str::<impl str>::as_bytes$|core::slice::<impl \[T\]>::as_ref$|\bCursor::<T>::get_ref$|\bCursor::<T>::into_inner$|<impl \[T; N\]>::as_slice$")
 IDENT_CALL = re.compile(r"\bInto<U>>?::into$|\bFrom<.*>>?::from$|\bClone>?::clone$|\bToOwned>?::to_owned$|core::hint::must_use$|\bIntoIterator>?::into_iter$")
 TRY_CONV = re.compile(r"\bTryFrom<.*>>?::try_from$|\bTryInto<.*>>?::try_into$")
 INDEX_CALL = re.compile(r"\bIndex(Mut)?<.*>>?::index(_mut)?$")
-SPLIT_AT = re.compile(r"core::slice::<impl \[T\]>::split_at(_mut)?$|\bstr::split_at$")
+SPLIT_AT = re.compile(r"core::slice::<impl \[T\]>::split_at(_mut)?$|core::str::<impl str>::split_at$")
 COPY_FROM = re.compile(r"core::slice::<impl \[T\]>::(copy_from_slice|clone_from_slice)$")
 MIN_CALL = re.compile(r"\bOrd>?::min$|core::cmp::min$|::min$")
 MAX_CALL = re.compile(r"\bOrd>?::max$|core::cmp::max$")
@@ -39,7 +39,7 @@ SAT_SUB = re.compile(r"::saturating_sub$")
 CHECKED = re.compile(r"::checked_(add|sub|mul)$")
 NON_RESIZING = re.compile(r"\bDerefMut>?::deref_mut$|::as_mut_slice$|\bAsMut<.*>>?::as_mut$|\bBorrowMut<.*>>?::borrow_mut$|\bIterator>?::next$|::iter_mut$|::as_mut_ptr$")
 FROM_ELEM = re.compile(r"\bvec::from_elem$")
-FIND_CALL = re.compile(r"\bstr::(find|rfind)$|core::slice::<impl \[T\]>::(iter\(\)\.)?position$|memchr::memchr$|\bstr::(find|rfind)::<.*>$")
+FIND_CALL = re.compile(r"core::str::<impl str>::(find|rfind)$|memchr::memchr$")
 INPUT_CALL = re.compile(r"::from_(be|le|ne)_bytes$|\bReadBytesExt>?::read_\w+$|BinReaderExt>?::read_\w+$|\bBinRead>?::read\w*$|::read_(u|i)\d+\w*$|::get_(u|i)\d+\w*$")
 
 
@@ -111,12 +111,12 @@ def fmt_atom(a):
     if a[0] == "phi":
         return "phi(bb%d,_%s)" % (a[1], a[2])
     if a[0] == "vec":
-        return "_%s#%s" % (a[1], a[2] if isinstance(a[2], int) else "%s%s" % (a[2][0], a[2][1]))
+        return "_%s#%s" % (a[1], a[2] if isinstance(a[2], int) else "".join(str(x) for x in a[2])[:12])
     return "%s@%s" % (a[0], ",".join(str(x) for x in a[1:]))
 
 
 class State:
-    __slots__ = ("env", "facts", "cmp", "pts", "ver", "lendef", "rng")
+    __slots__ = ("env", "facts", "cmp", "pts", "ver", "lendef", "rng", "post", "disc")
 
     def __init__(self):
         self.env = {}
@@ -126,6 +126,8 @@ class State:
         self.ver = {}
         self.lendef = {}
         self.rng = {}
+        self.post = {}
+        self.disc = {}
 
     def copy(self):
         s = State()
@@ -136,14 +138,16 @@ class State:
         s.ver = dict(self.ver)
         s.lendef = dict(self.lendef)
         s.rng = dict(self.rng)
+        s.post = dict(self.post)
+        s.disc = dict(self.disc)
         return s
 
     def same(self, o):
         return (self.env == o.env and self.facts == o.facts and self.cmp == o.cmp and self.pts == o.pts and self.ver == o.ver
-                and self.lendef == o.lendef and self.rng == o.rng)
+                and self.lendef == o.lendef and self.rng == o.rng and self.post == o.post and self.disc == o.disc)
 
 
-def join(states, bb, phi_src=None):
+def join(states, bb, phi_src=None, prover=None):
     """join of predecessor edge states at block bb"""
     if len(states) == 1:
         return states[0].copy()
@@ -154,8 +158,12 @@ def join(states, bb, phi_src=None):
         keys &= set(s.env)
     for k in keys:
         v = first.env[k]
+        selfphi = Lin.atom(("phi", bb, k if isinstance(k, int) else "%s.%s" % k))
+        others = {s.env[k] for s in states} - {selfphi}
         if all(s.env[k] == v for s in states[1:]):
             out.env[k] = v
+        elif len(others) == 1:
+            out.env[k] = next(iter(others))
         else:
             pa = ("phi", bb, k if isinstance(k, int) else "%s.%s" % k)
             out.env[k] = Lin.atom(pa)
@@ -166,21 +174,51 @@ def join(states, bb, phi_src=None):
     facts = set(first.facts)
     for s in states[1:]:
         facts &= s.facts
+    if prover is not None:
+        # semantic join: a fact of one branch survives when every other branch entails it (x == 4 | x == 8  =>  x <= 8)
+        cand = set()
+        for s in states:
+            cand |= s.facts
+        for f in cand - facts:
+            if len(f.t) <= 3 and all((f in s.facts) or prover(s, f) for s in states):
+                facts.add(f)
     out.facts = frozenset(facts)
-    for name in ("cmp", "pts", "ver", "lendef", "rng"):
+    for name in ("cmp", "pts", "ver", "rng", "post", "disc"):
         d0 = getattr(first, name)
         d = {}
         for k, v in d0.items():
             if all(getattr(s, name).get(k, None) == v for s in states[1:]):
                 d[k] = v
         setattr(out, name, d)
+    # lengths: keep what every state that still knows this version agrees on (a state carrying the join's own version name
+    # for the container simply has no entry under the old version)
+    allld = {}
+    for s in states:
+        for k, v in s.lendef.items():
+            allld.setdefault(k, set()).add(v)
+    for k, vs_ in allld.items():
+        if len(vs_) != 1:
+            continue
+        okk = True
+        for s in states:
+            if k in s.lendef:
+                continue
+            if k[0] == "vec" and s.ver.get(k[1], 0) == ("j", bb):
+                continue
+            okk = False
+        if okk:
+            out.lendef[k] = next(iter(vs_))
     # versions that disagree: take a fresh, block-named version so stale len atoms cannot be confused
     allk = set()
     for s in states:
         allk |= set(s.ver)
     for k in allk:
         vs = {s.ver.get(k, 0) for s in states}
-        if len(vs) > 1:
+        # phi(x, phi) = x: a version that only meets the join's own name coming back round the loop was not changed in the loop
+        vs2 = vs - {("j", bb)}
+        if len(vs2) == 1 and len(vs) > 1:
+            out.ver[k] = next(iter(vs2))
+        elif len(vs) > 1:
             out.ver[k] = ("j", bb)
     return out
 
@@ -200,8 +238,16 @@ class Sink:
 
 
 class Analysis:
-    def __init__(self, body, max_iter=40):
+    def __init__(self, body, max_iter=40, assume=(), requires=None, summaries=None, posts=None):
         self.b = body
+        self.req_src = (posts or {}).get("src", {})
+        self.req_ty = (posts or {}).get("ty", {})
+        self.posts = (posts or {}).get("facts", {})
+        self.post_src = (posts or {}).get("src", {})
+        self.post_ty = (posts or {}).get("ty", {})
+        self.summaries = summaries or {}
+        self.assume = list(assume)
+        self.requires = requires or {}
         self.atom_src = {}   # atom -> (kind, detail)
         self.atom_ty = {}
         self.phi_src = {}    # phi atom -> set of Lin it merges
@@ -253,6 +299,29 @@ class Analysis:
             return st.env.get(p[0]) if self.is_slice_ref(p[0]) else None
         return None
 
+    def field_atom(self, st, p):
+        """canonical atom for `base.f.g` / `(*base).f.g`: the same field of the same (unchanged) object is the same value"""
+        l = p[0]
+        rest = p[1:]
+        ident = None
+        if rest and rest[0] == "*":
+            ident = self.value_atom(st, {"k": "cp", "p": [l]})
+            rest = rest[1:]
+        else:
+            ident = ("vec", l, st.ver.get(l, 0))
+        if ident is None or not rest or not all(isinstance(e, dict) and "f" in e and "d" not in e for e in rest):
+            return None
+        if isinstance(ident, tuple) and ident[0] == "vec" and isinstance(ident[2], tuple) and ident[2][0] == "vol":
+            return None
+        path = tuple(str(e.get("n") or e.get("f")) for e in rest)
+        a = ("fld", ident, path)
+        last = rest[-1]
+        if a not in self.atom_src:
+            kind = "field:%s.%s" % (last.get("a") or "?", last.get("n")) if last.get("a") else "other"
+            self.atom_src[a] = (kind, "")
+            self.atom_ty[a] = last.get("t", "")
+        return a
+
     def is_slice_ref(self, l):
         return bool(re.match(r"^&(mut )?(\[|str$)", self.ty(l)))
 
@@ -283,6 +352,14 @@ class Analysis:
             return None
         if va in st.lendef:
             return st.lendef[va]
+        if va[0] == "vec":
+            m = re.match(r"^(&(mut )?)?\[.*; (\d+)\]$", self.ty(va[1]))
+            if m:
+                return Lin(int(m.group(3)))
+        if va[0] == "arg":
+            m = re.match(r"^&(mut )?\[.*; (\d+)\]$", self.ty(va[1]))
+            if m:
+                return Lin(int(m.group(2)))
         return Lin.atom(("len", va))
 
     def kill(self, st, l):
@@ -292,6 +369,8 @@ class Analysis:
         st.cmp.pop(l, None)
         st.pts.pop(l, None)
         st.rng.pop(l, None)
+        st.post.pop(l, None)
+        st.disc.pop(l, None)
         st.ver[l] = (st.ver.get(l, 0) + 1) if isinstance(st.ver.get(l, 0), int) else ("k", st.ver.get(l))
 
     # ---- transfer ------------------------------------------------------------------------------------------------
@@ -327,6 +406,10 @@ class Analysis:
                 for kk, vv in st.env.items():
                     if isinstance(kk, tuple) and kk[0] == src:
                         fields[kk[1]] = vv
+            if val is None and o["k"] in ("cp", "mv") and INT.match(self.ty(d)) and len(o["p"]) >= 2:
+                fa = self.field_atom(st, o["p"])
+                if fa is not None:
+                    val = Lin.atom(fa)
             if val is None and o["k"] in ("cp", "mv") and INT.match(self.ty(d)):
                 # a load: from a byte slice -> input; else opaque
                 base_ty = self.ty(o["p"][0])
@@ -405,6 +488,10 @@ class Analysis:
                 if src["k"] in ("cp", "mv") and len(src["p"]) == 1 and src["p"][0] in st.cmp:
                     op, a, c = st.cmp[src["p"][0]]
                     cmpv = ({"Lt": "Ge", "Le": "Gt", "Gt": "Le", "Ge": "Lt", "Eq": "Ne", "Ne": "Eq"}[op], a, c)
+        elif k == "Discr":
+            rp = r["p"]
+            if len(rp) == 1:
+                self._disc_new = rp[0]
         elif k == "Len":
             va = self.value_atom(st, {"k": "cp", "p": r["p"]}) if "p" in r else None
             val = self.len_of(st, va)
@@ -416,6 +503,9 @@ class Analysis:
                 # reborrow: same value
                 val = st.env.get(rp[0])
                 ptsv = st.pts.get(rp[0])
+            elif not r.get("mut") and self.field_atom(st, rp) is not None:
+                # &self.field / &(*p).field: the container stored in that field of that (unchanged) object
+                val = Lin.atom(self.field_atom(st, rp))
             elif r.get("mut"):
                 base = rp[0]
                 tgt = st.pts.get(base, base)
@@ -437,7 +527,21 @@ class Analysis:
                     v = self.operand(st, o, bb, idx)
                     if v is not None:
                         fields[i] = v
+        src_len = None
+        src_post = None
+        if k == "Use" and r["o"][0]["k"] in ("cp", "mv") and len(r["o"][0]["p"]) == 1:
+            sl_ = r["o"][0]["p"][0]
+            src_len = st.lendef.get(("vec", sl_, st.ver.get(sl_, 0)))
+            src_post = st.post.get(sl_)
+        disc_new = getattr(self, "_disc_new", None)
+        self._disc_new = None
         self.kill(st, d)
+        if src_post is not None:
+            st.post[d] = src_post
+        if disc_new is not None:
+            st.disc[d] = disc_new
+        if src_len is not None:
+            st.lendef[("vec", d, st.ver.get(d, 0))] = src_len
         if val is not None and val.single() is not None and val.single() in self.atom_src and val.single() not in self.atom_ty and val.single()[1:] == (bb, idx):
             self.atom_ty[val.single()] = self.ty(d)
         if val is None and INT.match(self.ty(d)) and not fields and cmpv is None:
@@ -495,6 +599,7 @@ class Analysis:
         return bool(UNSIGNED.match(self.atom_ty.get(a, "")))
 
     def prove(self, st, g):
+        """-> (description, [facts used]) or None"""
         cands = [g]
         neg = [a for a, v in g.t.items() if v < 0 and self.unsigned_atom(a)]
         if neg:
@@ -505,49 +610,55 @@ class Analysis:
         facts = list(st.facts)
         # value ranges of narrow unsigned types (u8 index into a [T; 256] table)
         for a, v in g.t.items():
-            w = WIDTH.get(self.atom_ty.get(a, "") if a[0] not in ("arg",) else self.ty(a[1]), 0)
-            if v > 0 and w in (8, 16) and UNSIGNED.match(self.atom_ty.get(a, "") if a[0] != "arg" else self.ty(a[1])):
+            aty = self.atom_ty.get(a, "") if a[0] != "arg" else self.ty(a[1])
+            w = WIDTH.get(aty, 0)
+            if v > 0 and w in (8, 16) and UNSIGNED.match(aty):
                 facts.append(Lin(-((1 << w) - 1), {a: 1}))
         for gg in cands:
             if gg.is_const() and gg.c <= 0:
-                return "constant"
+                return ("constant", [])
             for f in facts:
                 d = gg.sub(f)
                 if d.is_const() and d.c <= 0:
-                    return "fact %r <= 0" % f
-                # scaled fact (k*f)
+                    return ("fact %r <= 0" % f, [f])
             rel = [f for f in facts if f.atoms() & gg.atoms()]
-            for i, f1 in enumerate(rel):
-                d1 = gg.sub(f1)
-                if len(d1.t) > 4:
-                    continue
-                for f2 in facts:
-                    if not (f2.atoms() & d1.atoms()):
-                        continue
-                    d = d1.sub(f2)
-                    if d.is_const() and d.c <= 0:
-                        return "facts %r <= 0 and %r <= 0" % (f1, f2)
-                    # drop unsigned negatives after combination
-                    negs = [a for a, v in d.t.items() if v < 0 and self.unsigned_atom(a)]
-                    if negs and all(v < 0 for v in d.t.values()) and len(negs) == len(d.t) and d.c <= 0:
-                        return "facts %r <= 0 and %r <= 0 (and x >= 0)" % (f1, f2)
-            # single fact + unsigned drop
             for f in rel:
                 d = gg.sub(f)
                 if d.c <= 0 and d.t and all(v < 0 and self.unsigned_atom(a) for a, v in d.t.items()):
-                    return "fact %r <= 0 (and x >= 0)" % f
+                    return ("fact %r <= 0 (and x >= 0)" % f, [f])
+            for f1 in rel:
+                d1 = gg.sub(f1)
+                if len(d1.t) > 5:
+                    continue
+                for f2 in facts:
+                    if f2 is f1 or not (f2.atoms() & d1.atoms()):
+                        continue
+                    d = d1.sub(f2)
+                    if d.is_const() and d.c <= 0:
+                        return ("facts %r <= 0 and %r <= 0" % (f1, f2), [f1, f2])
+                    if d.c <= 0 and d.t and all(v < 0 and self.unsigned_atom(a) for a, v in d.t.items()):
+                        return ("facts %r <= 0 and %r <= 0 (and x >= 0)" % (f1, f2), [f1, f2])
         return None
 
     # ---- sinks ---------------------------------------------------------------------------------------------------
     def sink(self, st, bb, kind, what, goals, index_lins, loc):
         proofs = []
         ok = True
+        used = set()
+        st0 = st
+        if self.assume and (st.facts & set(self.assume)):
+            st0 = st.copy()
+            st0.facts = st.facts - set(self.assume)
         for g in goals:
-            pr = self.prove(st, g) if g is not None else None
-            proofs.append(pr)
+            pr = (self.prove(st0, g) or self.prove(st, g)) if g is not None else None
+            proofs.append(pr[0] if pr else None)
             if pr is None:
                 ok = False
-        self._sinks_now.append(Sink(self.b, bb, kind, what, goals, index_lins, loc, ok, proofs))
+            else:
+                used |= {f for f in pr[1] if f in self.assume}
+        sk = Sink(self.b, bb, kind, what, goals, index_lins, loc, ok, proofs)
+        sk.used_assumptions = used
+        self._sinks_now.append(sk)
 
     def call(self, st, bb, t):
         f = t["f"]
@@ -718,6 +829,78 @@ class Analysis:
                 newfacts.append(payload.addc(1).sub(rg[2]))
                 if rg[1] is not None and rg[1].is_const():
                     newfacts.append(Lin(rg[1].c).sub(payload))
+        cid = f["fn"].get("id") if f.get("k") == "fn" else None
+        # pure arithmetic helpers: the callee returns a linear function of its arguments (entry_size(key_size) = 3*k + 13)
+        if cid in self.summaries and val is None and payload is None:
+            S = self.summaries[cid]
+            inst = Lin(S.c)
+            for a, v in S.t.items():
+                sub = self.operand(st, args[a[1] - 1], bb, "t") if a[0] == "arg" and a[1] - 1 < len(args) else None
+                if sub is None:
+                    inst = None
+                    break
+                inst = inst.add(sub, v)
+            if inst is not None:
+                val = inst
+        # preconditions of workspace callees (bounds their body could only prove under an assumption about its parameters)
+        for H in self.requires.get(cid, ()):
+            inst = Lin(H.c)
+            okh = True
+            idx_l = []
+            for a, v in H.t.items():
+                sub = None
+                if a[0] == "arg" and a[1] - 1 < len(args):
+                    sub = self.operand(st, args[a[1] - 1], bb, "t")
+                    if sub is not None:
+                        idx_l.append(sub)
+                elif a[0] == "len" and a[1][0] == "arg" and a[1][1] - 1 < len(args):
+                    sub = self.len_of(st, self.value_atom(st, args[a[1][1] - 1]))
+                    if sub is not None and not (sub.single() is not None and sub.single()[0] == "len"):
+                        idx_l.append(sub)
+                elif a[0] == "fld" and a[1][0] == "arg" and a[1][1] - 1 < len(args):
+                    ident = self.value_atom(st, args[a[1][1] - 1])
+                    if ident is not None:
+                        na = ("fld", ident, a[2])
+                        if na not in self.atom_src:
+                            self.atom_src[na] = self.req_src.get(a, ("other", ""))
+                            self.atom_ty[na] = self.req_ty.get(a, "")
+                        sub = Lin.atom(na)
+                        idx_l.append(sub)
+                if sub is None:
+                    okh = False
+                    break
+                inst = inst.add(sub, v)
+            self.sink(st, bb, "precondition", "precondition of %s: %r <= 0" % (name.split("::")[-1], H), [inst if okh else None], idx_l, loc)
+        postv = None
+        if cid in self.posts:
+            inst_all = []
+            for F in self.posts[cid]:
+                inst = Lin(F.c)
+                for a, v in F.t.items():
+                    ident = self.value_atom(st, args[a[1][1] - 1]) if (a[0] == "fld" and a[1][0] == "arg" and a[1][1] - 1 < len(args)) else None
+                    if ident is None:
+                        inst = None
+                        break
+                    na = ("fld", ident, a[2])
+                    if na not in self.atom_src:
+                        self.atom_src[na] = self.post_src.get(a, ("other", ""))
+                        self.atom_ty[na] = self.post_ty.get(a, "")
+                    inst = inst.add(Lin.atom(na), v)
+                if inst is not None:
+                    inst_all.append(inst)
+            if inst_all:
+                postv = tuple(inst_all)
+        elif re.search(r"\bTry>?::branch$", orig or name) and a0 is not None and a0["k"] in ("cp", "mv") and len(a0["p"]) == 1:
+            postv = st.post.get(a0["p"][0])
+            if payload is None:
+                payload = st.env.get((a0["p"][0], "payload"))
+        if payload is None and d is not None and val is None:
+            m_ = re.match(r"^core::(result::Result|option::Option)<(u8|u16|u32|u64|usize|i8|i16|i32|i64|isize)\b", self.ty(d))
+            if m_:
+                kind_ = "input" if (INPUT_CALL.search(name) or INPUT_CALL.search(orig)) else "call:%s" % name.split("::")[-1]
+                payload = self.fresh("pay", bb, "t", kind_, name, m_.group(2))
+                srcs_ = [self.operand(st, a, bb, "t") for a in args]
+                self.derive(payload, [x for x in srcs_ if x is not None])
         # effects on arguments: anything passed by &mut may change
         keep_rng = None
         for i, a in enumerate(args):
@@ -734,7 +917,11 @@ class Analysis:
                         if resizing:
                             # the callee may resize the container, or keep the borrow inside what it returns (Cursor::new(&mut v)):
                             # from here on nothing is known about this local's length
-                            st.ver[tgt] = ("vol", bb)
+                            dty = self.ty(d) if d is not None else ""
+                            if "&" in dty or "'" in dty:
+                                st.ver[tgt] = ("vol", bb)     # the result may keep the borrow (Cursor::new(&mut v), v.iter_mut())
+                            else:
+                                st.ver[tgt] = ("m", bb, i)      # mutated once, by this call
                             for kk in [kk for kk in st.lendef if kk[0] == "vec" and kk[1] == tgt]:
                                 st.lendef.pop(kk, None)
                         st.env.pop(tgt, None)
@@ -772,6 +959,8 @@ class Analysis:
                 st.rng[d] = rngv
             if lendef is not None and lendef[0] is not None:
                 st.lendef[lendef[0]] = lendef[1]
+            if postv is not None:
+                st.post[d] = postv
         if newfacts:
             st.facts = st.facts | set(newfacts)
 
@@ -785,6 +974,7 @@ class Analysis:
             if INT.match(self.ty(i)) or self.is_slice_ref(i) or re.match(r"^&", self.ty(i)):
                 entry.env[i] = Lin.atom(a)
                 self.atom_src[a] = ("param", b.local_name(i) or str(i))
+        entry.facts = frozenset(self.assume)
         edge_out = {}   # (src, dst) -> State
         self.in_state = {0: entry}
         work = [0]
@@ -803,6 +993,8 @@ class Analysis:
             t = blk["t"]
             outs = {}
             k = t["k"]
+            self.out_state = getattr(self, "out_state", {})
+            self.out_state[bb] = st
             if k == "Call":
                 self.call(st, bb, t)
                 if t.get("t") is not None:
@@ -826,19 +1018,24 @@ class Analysis:
                 dl = t["d"]["p"][0] if t["d"]["k"] in ("cp", "mv") and len(t["d"]["p"]) == 1 else None
                 cv = st.cmp.get(dl) if dl is not None else None
                 vals = [(int(v), tg) for v, tg in t["v"]]
+                pf = st.post.get(st.disc.get(dl)) if dl is not None and dl in st.disc else None
                 for v, tg in vals:
                     s2 = st.copy()
+                    if pf and v == 0:
+                        s2.facts = s2.facts | set(pf)
                     if cv is not None:
                         s2.facts = s2.facts | set(self.fact_of(cv, v != 0))
                     elif dl is not None and dl in st.env and INT.match(self.ty(dl)):
                         s2.facts = s2.facts | {st.env[dl].addc(-v), Lin(v).sub(st.env[dl])}
-                    outs[tg] = join([outs[tg], s2], tg, self.phi_src) if tg in outs else s2
+                    outs[tg] = join([outs[tg], s2], tg, self.phi_src, self.prove) if tg in outs else s2
                 if t.get("o") is not None:
                     s2 = st.copy()
+                    if pf and vals and all(v != 0 for v, _ in vals):
+                        s2.facts = s2.facts | set(pf)
                     if cv is not None and len(vals) == 1:
                         s2.facts = s2.facts | set(self.fact_of(cv, vals[0][0] == 0))
                     tg = t["o"]
-                    outs[tg] = join([outs[tg], s2], tg, self.phi_src) if tg in outs else s2
+                    outs[tg] = join([outs[tg], s2], tg, self.phi_src, self.prove) if tg in outs else s2
             else:
                 for sb in b.succ[bb]:
                     outs[sb] = st
@@ -847,13 +1044,37 @@ class Analysis:
             for tg, s2 in outs.items():
                 edge_out[(bb, tg)] = s2
                 ins = [edge_out[(p, tg)] for p in preds[tg] if (p, tg) in edge_out]
-                new = join(ins, tg, self.phi_src) if ins else s2.copy()
+                new = join(ins, tg, self.phi_src, self.prove) if ins else s2.copy()
                 old = self.in_state.get(tg)
                 if old is None or not old.same(new):
                     self.in_state[tg] = new
                     if tg not in work:
                         work.append(tg)
         self.sinks = [s for bb in sorted(getattr(self, "sinks_at", {})) for s in self.sinks_at[bb]]
+        # validator postcondition: facts about fields of a reference parameter that hold at every `Ok(..)` return
+        self.post_facts = None
+        okb = []
+        for i, blk in enumerate(b.blocks):
+            for st_ in blk["s"]:
+                if st_["p"] == [0] and st_["r"]["k"] == "Agg" and st_["r"].get("ak") == "adt" and st_["r"].get("variant") == "Ok" and st_["r"].get("adt", "").endswith("result::Result"):
+                    okb.append(i)
+        outs_ = [self.out_state[i] for i in okb if i in getattr(self, "out_state", {})]
+        if outs_:
+            common = set(outs_[0].facts)
+            for s_ in outs_[1:]:
+                common &= s_.facts
+            pf = [f for f in common if f.t and all(a[0] == "fld" and a[1][0] == "arg" for a in f.atoms())]
+            if pf:
+                self.post_facts = sorted(pf, key=repr)
+        # return summary: the same linear function of the parameters on every return path
+        self.ret = None
+        if INT.match(self.ty(0)):
+            rets = [self.out_state[i] for i in b.return_blocks() if i in getattr(self, "out_state", {})]
+            vals = {s.env.get(0) for s in rets}
+            if len(vals) == 1:
+                v = next(iter(vals))
+                if v is not None and all(a[0] == "arg" for a in v.atoms()):
+                    self.ret = v
         for s in self.sinks:
             s.taint = self.taint_of(s.index_lins)
 
@@ -877,3 +1098,95 @@ class Analysis:
             for x in self.phi_src.get(a, ()):
                 work.append(x)
         return out
+
+
+def candidate_hyps(b):
+    """hypotheses about the parameters that a helper may rely on: int_param <= len(slice_param)"""
+    ints = [i for i in range(1, b.argc + 1) if UNSIGNED.match(b.local_ty(i) or "")]
+    seqs = [j for j in range(1, b.argc + 1) if re.match(r"^&(mut )?(\[|str$|alloc::vec::Vec<|alloc::string::String$|bytes::bytes::Bytes$)", b.local_ty(j) or "")]
+    return [Lin(0, {("arg", i): 1, ("len", ("arg", j)): -1}) for i in ints for j in seqs]
+
+
+def entry_only(g):
+    return g is not None and bool(g.t) and all(a[0] == "arg" or (a[0] == "len" and a[1][0] == "arg") or (a[0] == "fld" and a[1][0] == "arg") for a in g.atoms())
+
+
+def analyse_closure(prog, cl, rounds=4, krate_prefix="cascette_"):
+    """-> ({body id: Analysis}, {body id: [required Lin]}). Sinks a helper cannot prove from its own guards but that hold under a
+    condition on its parameters are DELEGATED: the condition becomes a precondition sink at every in-closure call site."""
+    requires = {}
+    results = {}
+    summaries = {}
+    posts = {"facts": {}, "src": {}, "ty": {}}
+    has_caller = set()
+    for bid in cl:
+        for (s_id, how, cc) in prog.callers.get(bid, []):
+            if cc is not None and s_id in cl and (prog.bodies[s_id].root or s_id) != bid:
+                has_caller.add(bid)
+    dirty = None   # None = everything
+    callers_of = {}
+    for bid in cl:
+        for (s_id, how, cc) in prog.callers.get(bid, []):
+            if cc is not None and s_id in cl:
+                callers_of.setdefault(bid, set()).add(s_id)
+    last_req = {}
+    for r in range(rounds):
+        changed = set()
+        for bid in sorted(cl):
+            b = prog.bodies[bid]
+            if not b.krate.startswith(krate_prefix):
+                continue
+            if dirty is not None and bid not in dirty:
+                continue
+            a0 = Analysis(b, requires=requires, summaries=summaries, posts=posts)
+            results[bid] = a0
+            if a0.ret is not None and not b.root and summaries.get(bid) != a0.ret:
+                summaries[bid] = a0.ret
+                changed.add(bid)
+            if a0.post_facts and not b.root and posts["facts"].get(bid) != a0.post_facts:
+                posts["facts"][bid] = a0.post_facts
+                changed.add(bid)
+                for f_ in a0.post_facts:
+                    for at_ in f_.atoms():
+                        posts["src"][at_] = a0.atom_src.get(at_, ("other", ""))
+                        posts["ty"][at_] = a0.atom_ty.get(at_, "")
+            for sk in a0.sinks:
+                sk.delegated = None
+            unp = [sk for sk in a0.sinks if not sk.proven]
+            req = set()
+            if unp and bid in has_caller and not b.root:
+                # (1) goals that only mention the parameters: the callers decide
+                for sk in unp:
+                    bad = [g for g, d in zip(sk.goals, sk.detail) if d is None]
+                    if bad and all(entry_only(g) for g in bad):
+                        sk.delegated = bad
+                        req |= set(bad)
+                # (2) int_param <= len(slice_param)
+                rest = [sk for sk in unp if not sk.delegated]
+                hyps = candidate_hyps(b)
+                if rest and hyps:
+                    a1 = Analysis(b, assume=hyps, requires=requires, summaries=summaries, posts=posts)
+                    if len(a1.sinks) == len(a0.sinks):
+                        for s0, s1 in zip(a0.sinks, a1.sinks):
+                            if not s0.proven and not s0.delegated and s1.proven and getattr(s1, "used_assumptions", None):
+                                s0.delegated = sorted(s1.used_assumptions, key=repr)
+                                req |= set(s1.used_assumptions)
+            newr = sorted(req, key=repr)
+            if newr != requires.get(bid, []):
+                changed.add(bid)
+                if newr:
+                    requires[bid] = newr
+                    for f_ in req:
+                        for at_ in f_.atoms():
+                            if at_[0] == "fld":
+                                posts["src"][at_] = a0.atom_src.get(at_, ("other", ""))
+                                posts["ty"][at_] = a0.atom_ty.get(at_, "")
+                else:
+                    requires.pop(bid, None)
+        if not changed:
+            break
+        dirty = set()
+        for c_ in changed:
+            dirty |= callers_of.get(c_, set())
+            dirty.add(c_)
+    return results, requires
